@@ -1,0 +1,27 @@
+"""Verification hook points (no-ops unless ``PYNETDICOM_VERIF=1``).
+
+The verification harness installs a callback with :func:`install`; the
+instrumented loops call :func:`point` at their scheduling points so that the
+harness can single-step them or inject delays. With the environment variable
+unset ``ENABLED`` is ``False`` and every call site is a single false ``if``.
+"""
+import os
+from typing import Any
+from collections.abc import Callable
+
+ENABLED: bool = os.environ.get("PYNETDICOM_VERIF") == "1"
+
+_CALLBACK: Callable[[str, Any], None] | None = None
+
+
+def install(callback: Callable[[str, Any], None] | None) -> None:
+    """Install (or remove with ``None``) the harness callback."""
+    global _CALLBACK
+    _CALLBACK = callback
+
+
+def point(name: str, obj: Any = None) -> None:
+    """Call the installed callback, if any."""
+    cb = _CALLBACK
+    if cb is not None:
+        cb(name, obj)
